@@ -19,7 +19,21 @@ Section SlabFeature.
   Inductive stemp :=
   | STUniform (mn mx : F) (o : op) (T : F)
   | STLinear (mn mx : F) (o : op) (t0 t1 : F)         (* slab: top / bottom; fault: center / side temperature *)
-  | STAdiabatic (mn mx : F) (o : op) (Tp alpha cp : F).  (* sentinels resolved at parse time *)
+  | STAdiabatic (mn mx : F) (o : op) (Tp alpha cp : F)   (* sentinels resolved at parse time *)
+  | STPlate (mn mx : F) (o : op) (density vel k alpha cp : F) (adiabatic_heating : bool) (Tp : F).  (* slab only: McKenzie (1970) *)
+
+  (** the 500-term series of the slab plate model *)
+  Fixpoint mckenzie_sum (n : nat) (i : nat) (Rn x_scaled z_scaled acc : F) : F :=
+    match n with
+    | O => acc
+    | S n' =>
+        let fi := fofZ (Z.of_nat i) in
+        let sgn := if Nat.even i then f1 else - f1 in
+        let A := sgn / (fi * fpi) in
+        let B := fexp ((Rn - fpow ((Rn * Rn) + ((fofZ (Z.of_nat (i * i)) * fpi) * fpi)) fhalf) * x_scaled) in
+        let C := fsin ((fi * fpi) * z_scaled) in
+        mckenzie_sum n' (S i) Rn x_scaled z_scaled (acc + ((A * B) * C))
+    end.
 
   Inductive scomp :=
   | SCUniform (mn mx : F) (o : op) (comps : list N) (fracs : list F)
@@ -36,7 +50,7 @@ Section SlabFeature.
 
   Definition in_dist (mn mx x : F) : bool := (x <=? mx) && (mn <=? x).
 
-  Definition stemp_eval (g : @globals F) (fault : bool) (q : @query F) (pd : @plane_distances F) (m : stemp) (old : F) : F :=
+  Definition stemp_eval (g : @globals F) (fault : bool) (q : @query F) (pd : @plane_distances F) (local_thickness : F) (m : stemp) (old : F) : F :=
     let d := pd_distance pd in
     let dd := if fault then fabs d else d in
     match m with
@@ -51,6 +65,17 @@ Section SlabFeature.
         (* the fault copy compares the *depth* with the distance range *)
         let x := if fault then q_depth q else d in
         if in_dist mn mx x then apply_op o old (Tp * fexp (((alpha * q_g q) / cp) * q_depth q)) else old
+    | STPlate mn mx o density vel k alpha cp adiab Tp =>
+        if in_dist mn mx d then
+          let th := fmin local_thickness mx in
+          let Rn := (((density * cp) * (vel / fofZ 31557600)) * th) / (f2 * k) in
+          let two_eps := f2 * feps in
+          let z_scaled := f1 - (if fabs d <? two_eps then two_eps else d / th) in
+          let x_scaled := if fabs (pd_along pd) <? two_eps then two_eps else pd_along pd / th in
+          let temp := if adiab then fexp (((alpha * q_g q) * q_depth q) / cp) else f1 in
+          let sum := mckenzie_sum 500 1 Rn x_scaled z_scaled f0 in
+          apply_op o old (temp * (Tp + ((f2 * (Tp - fdec 27315 (-2))) * sum)))
+        else old
     end.
 
   Fixpoint find3 (comps : list N) (a b : list F) (c : N) : option (F * F) :=
@@ -184,14 +209,14 @@ Section SlabFeature.
   (** painting one property block (only called when [lf_covers]) *)
   Definition lf_paint (g : @globals F) (tape : nat -> F) (lf : line_feature) (q : @query F) (p : prop_req) (t : nat) (blk : list F) : list F * nat :=
     let pd := lf_distances lf q in
-    let '(_, _, _, cur, nxt) := lf_local lf pd in
+    let '(th, _, _, cur, nxt) := lf_local lf pd in
     let sf := pd_section_fraction pd in
     let fault := lf_fault lf in
     match p with
     | PTemp =>
         let old := nth 0 blk f0 in
-        let a := fold_left (fun o m => stemp_eval g fault q pd m o) (ls_temp cur) old in
-        let b := fold_left (fun o m => stemp_eval g fault q pd m o) (ls_temp nxt) old in
+        let a := fold_left (fun o m => stemp_eval g fault q pd th m o) (ls_temp cur) old in
+        let b := fold_left (fun o m => stemp_eval g fault q pd th m o) (ls_temp nxt) old in
         ([section_interp a b sf], t)
     | PComp c =>
         let old := nth 0 blk f0 in
